@@ -111,7 +111,9 @@ type C06 struct {
 	nt   bool
 }
 
-func init() { RegisterChecker("C06", func() Checker { return &C06{mods: map[uint64]map[string]bool{}} }) }
+func init() {
+	RegisterChecker("C06", func() Checker { return &C06{mods: map[uint64]map[string]bool{}} })
+}
 func (c *C06) ID() string { return "C06" }
 
 func (c *C06) scan(w *World, s *Snapshot, what string) {
@@ -239,7 +241,7 @@ type C12 struct {
 	nt      bool
 }
 
-func init() { RegisterChecker("C12", func() Checker { return &C12{touched: map[uint64]bool{}} }) }
+func init()               { RegisterChecker("C12", func() Checker { return &C12{touched: map[uint64]bool{}} }) }
 func (c *C12) ID() string { return "C12" }
 
 func orderExpired(o *marketv1.SellOrder, t int64, nanos int32) bool {
